@@ -37,6 +37,8 @@ def run(ctx, rep):
     type_id_clause(ctx.prog, sub)
     for o in sub.obs:
         rep.ob("R5-registry-clause", o["key"].split(" | ", 2)[2], o["ok"], o["detail"], o["at"])
+    from .common import check_refusal_inventory
+    check_refusal_inventory(ctx.prog, rep, "R6-refusal-inventory", ("libtw2_snapshot::format::",))
 
 
 def choke_point(prog, rep):
